@@ -85,11 +85,11 @@ type GenesisAlloc struct {
 func DefaultAlloc(k *Keys) GenesisAlloc {
 	var g GenesisAlloc
 	v := uint32(1000)
-	for _, c := range []int{AddrV1, AddrV2, AddrV1, AddrV2, AddrV1b, AddrV2b, AddrFnd, AddrFndV2, AddrV1, AddrV2, AddrACS, AddrACS} {
+	for _, c := range []int{AddrV1, AddrV2, AddrV1, AddrV2, AddrV1b, AddrV2b, AddrFnd, AddrFndV2, AddrV1, AddrV2, AddrACS, AddrACS, AddrNoSig, AddrNoSig} {
 		g.SC = append(g.SC, types.SiacoinOutput{Value: types.Siacoins(v), Address: k.Addr(c)})
 		v += 100
 	}
-	g.SF = []types.SiafundOutput{{Value: 6000, Address: k.Addr(AddrV1)}, {Value: 3000, Address: k.Addr(AddrV2)}, {Value: 1000, Address: k.Addr(AddrV1b)}}
+	g.SF = []types.SiafundOutput{{Value: 6000, Address: k.Addr(AddrV1)}, {Value: 2500, Address: k.Addr(AddrV2)}, {Value: 1000, Address: k.Addr(AddrV1b)}, {Value: 500, Address: k.Addr(AddrNoSig)}}
 	return g
 }
 
